@@ -166,3 +166,17 @@ def hasrepr_unhashable(ename, case, fail, obs):
     if fail[0] == "C18" and fail[1] == "finish_total":
         return "unhashable type: 'HasRepr'" in fail[2]
     return False
+
+
+def positional_call_arguments(ename, case, fail, obs):
+    """KF-C05-2: positional arguments of a hand-written constructor call are deleted and re-inserted as keywords
+    under the category fix although the value did not change."""
+    if ename != "calls" or not case.get("npos"):
+        return False
+    if fail[0] == "C05" and fail[1] == "fix_only_when_failing":
+        return True
+    if fail[0] == "C10" and fail[1] == "unmanaged_untouched" and fail[2].startswith("keyword "):
+        # KF-C10-1: the altered user-controlled argument is one of the positional ones
+        name = fail[2][len("keyword "):].split("=", 1)[0]
+        return name in [n for n, _e in case["old_kw"][:case["npos"]]]
+    return False
